@@ -29,6 +29,7 @@ type BlockRec struct {
 	Pre      StateDump // state at Parent (factory's view)
 	Post     StateDump // state at Block
 	Deputy   int
+	Lag      int       // how far the miner's own stable block trails its head (0: never stabilises)
 	Miner    *Deputy   // who mined it (genesis deputy or a user elected in a later term)
 	Term     []*Deputy // all deputies of the term that governs this block, in rank order
 	IsReward bool
@@ -79,6 +80,10 @@ func chainRun(c *Ctx, net *Net, g *TxGen, f *Factory, o ChainRunOpts) {
 	if o.Terms && c.Draw("gen", 2) == 0 {
 		nBlocks = o.MaxBlocks // half of the term runs go all the way to the reward block
 	}
+	// the miner's own stable block trails its head by lag blocks (0: it never stabilises anything
+	// but genesis). What is stable on a node must not influence what it mines or accepts.
+	lag := c.Draw("lag", 4)
+	var mined []*types.Block
 	for h := 1; h <= nBlocks; h++ {
 		// advance the clock by less than one slot so deputies rotate, sometimes by several
 		step := time.Duration(net.P.SlotMs) * time.Millisecond
@@ -132,7 +137,16 @@ func chainRun(c *Ctx, net *Net, g *TxGen, f *Factory, o ChainRunOpts) {
 			return
 		}
 		g.NoteIncluded(blk.Txs)
-		rec := &BlockRec{Net: net, Gen: g, F: f, Parent: parent, Block: blk, Cands: cands, Invalid: invalid, Deputy: d, Miner: who, Term: term,
+		mined = append(mined, blk)
+		if lag > 0 && len(mined) > lag {
+			if err := f.Stabilise(mined[len(mined)-1-lag]); err != nil {
+				c.Probe("factory_stabilise_error")
+				c.Keep["stabilise_error"] = err.Error()
+				return
+			}
+			c.Fault("miner_stable_advanced")
+		}
+		rec := &BlockRec{Net: net, Gen: g, F: f, Parent: parent, Block: blk, Cands: cands, Invalid: invalid, Deputy: d, Miner: who, Term: term, Lag: lag,
 			IsReward: deputynode.IsRewardBlock(blk.Height()), IsSnap: deputynode.IsSnapshotBlock(blk.Height())}
 		if rec.IsReward {
 			c.Probe("reward_block")
